@@ -70,19 +70,45 @@ def optOutJ : Option Out → Json
   | some o => jStr (outS o)
   | none => Json.null
 
+def splitSegs (checks : List (A × Val)) : List Nat → List (List (A × Val))
+  | [] => []
+  | n :: ns => checks.take n :: splitSegs (checks.drop n) ns
+
+/-- a call in flight: {…step…, "segs": [number of checks of each advance…], "eager": bool} -/
+def jobOf (insts : Array Json) (j : Json) : Job :=
+  let c := callOf insts j
+  Job.fresh c (jB (jF j "eager")) (splitSegs c.checks ((jL (jF j "segs")).map jN))
+
+/-- a top-level step: with "order" the body advances the calls "kids" in that order, otherwise "kids" are nested calls made one after the other -/
+def topOf (insts : Array Json) (j : Json) : Top :=
+  match jF j "order" with
+  | .arr o => .sched (callOf insts j) ((jL (jF j "kids")).map (jobOf insts)) (o.toList.map jN)
+  | _ => .tree (treeOf insts j)
+
+def Top.call : Top → Call
+  | .tree t => t.call
+  | .sched root _ _ => root
+
 /-- case: {"env": …, "insts": [{"k": "generic", "p": [tv…], "g": [[tv, ann]…]} | {"k": "reset"} | {"k": "direct"} | {"k": "plain"}],
-           "steps": [{"i": inst, "f": function id, "init": bool, "scan": bool, "checks": [[ann, val]…], "kids": [step…]}]} -/
+           "steps": [{"i": inst, "f": function id, "init": bool, "scan": bool, "checks": [[ann, val]…], "kids": [step…] (, "order": [kid…])}]} -/
 def handle (c : Json) : Json :=
   let env := envOf (jF c "env")
   let insts := jA (jF c "insts")
-  let ts := (jL (jF c "steps")).map (treeOf insts)
-  let h := ts.map (·.call)
-  let r := runForest env ts Stores.empty
+  let ts := (jL (jF c "steps")).map (topOf insts)
+  let h := ts.map Top.call
+  let r := runTops env ts Stores.empty
+  let below (t : Top) : List Call := match t with
+    | .tree _ => []
+    | .sched _ jobs _ => jobs.map (·.c)
   mkObj [("model", jArr (r.map fun o => jStr (outS o.1))),
          ("nested", jArr (r.map fun o => jArr (o.2.map optOutJ))),
          ("spec", jArr ((Spec.specHistory env h).map fun v => jStr (verdictS v))),
-         ("nspec", jArr (ts.map fun t => jArr ((Spec.specBelow env t).map fun v => jStr (verdictS v)))),
+         ("nspec", jArr (ts.map fun t => match t with
+            | .tree t => jArr ((Spec.specBelow env t).map fun v => jStr (verdictS v))
+            | x => jArr ((below x).map fun c => jStr (verdictS (Spec.specCall env c))))),
          ("regions", jArr ((Spec.regionsHistory env [] h).map fun rs => jArr (rs.map jStr))),
-         ("nregions", jArr (ts.map fun t => jArr ((Spec.regionsBelow env [] t).map fun rs => jArr (rs.map jStr))))]
+         ("nregions", jArr (ts.map fun t => match t with
+            | .tree t => jArr ((Spec.regionsBelow env [] t).map fun rs => jArr (rs.map jStr))
+            | x => jArr ((below x).map fun c => jArr ((Spec.regions env [] c).map jStr))))]
 
 end PedVerif.Drv.TypeVars
